@@ -60,6 +60,30 @@ Definition rfb (cs : list bytes) : rres :=
         end
   end.
 
+(* the same loop, recording how many octets every call of the parser is given (C19: the work and
+   the memory of the reassembly are bounded by the limit, not by what the source is willing to send) *)
+Fixpoint rfb_loop_calls (back : bytes) (cs : list bytes) : list N :=
+  if limit <=? lenN back then []
+  else
+    match cs with
+    | [] => []
+    | b :: cs' =>
+        if r_is_nil b then []
+        else lenN (back ++ b) ::
+             match P (back ++ b) with
+             | PMore => rfb_loop_calls (back ++ b) cs'
+             | _ => []
+             end
+    end.
+
+Definition rfb_calls (cs : list bytes) : list N :=
+  match cs with
+  | [] => []
+  | c :: cs' =>
+      if r_is_nil c then []
+      else lenN c :: match P c with PMore => rfb_loop_calls c cs' | _ => [] end
+  end.
+
 Definition r_value (r : rres) : option T := match r with RVal t _ => Some t | RErr => None end.
 Definition r_rest (r : rres) : option bytes := match r with RVal _ rest => Some (concat rest) | RErr => None end.
 Definition p_value (p : pres) : option T := match p with PDone _ t => Some t | _ => None end.
